@@ -11,7 +11,7 @@ G_UNITS = {
                "HelperAttributes::push_bounds_to_raw", "FieldEntry::push_bounds_to", "CompareOp::is_effects_to"],
     "cmp_bodies": ["build_partial_eq_body", "build_eq_body", "build_partial_ord_body", "build_ord_body", "build_hash_body", "build_compare_op", "build_partial_eq_expr", "build_eq_expr", "build_partial_ord_expr", "build_ord_expr", "build_hash_expr"],
     "builders": ["build_copy_for_struct", "build_copy_for_enum", "build_clone_for_struct", "build_clone_for_enum", "build_debug_expr",
-                 "build_debug_for_struct", "build_debug_for_enum", "build_default_ctor_args"],
+                 "build_debug_for_struct", "build_debug_for_enum", "build_default_ctor_args", "build_binary_op", "build_assign_op", "build_unary_op"],
 }
 
 
@@ -52,7 +52,8 @@ def run(ctx):
         "layer G (proved for all assignments of bound(...) to all levels and every number of variants/fields): the whole resolution chain Bounds::from .. FieldEntry::push_bounds_to and the builders of Copy, Clone, Debug (struct+enum) and Default's field walk, against the reference walk of contracts/_boundspec.rs",
         "layer G assumptions: WhereClauseBuilder::new copies the declared where-clause (external, checked by layer B); GenericParamSet::contains_in_type == mentions (external visitor); HashMap::get as a partial map; structural Clone of syn types; R9: slice.iter().rev() yields the reversed literal",
         "also proved (unit cmp_bodies): the five comparison body builders and build_compare_op incl. the field-level interleaving of helper bounds with key/by selection (closure contracts restated in the loop invariants), for structs and enums of any size",
-        "not under contract (bounded only): the operator builders (closures in a by-value loop), build_default_for_enum/struct, Bound::parse and structmeta parsing",
+        "also proved (unit builders): build_binary_op / build_assign_op / build_unary_op (array-literal loops unrolled by rewrite R11; the assertion sits inside the per-form closure, so it holds for all owned/reference forms)",
+        "not under contract (bounded only): build_default_for_enum/struct (and_then closure / filter_map().collect()), Bound::parse and structmeta parsing",
         "layer B: seeded random assignments through the real expander for every derivable trait (struct and enum), where-clauses compared as multisets with the reference of lib/boundfam.py",
     ]
     cov = {
